@@ -1,5 +1,5 @@
 (* Prop_C10.v — C10: poisoning tracks panics during holds, and only those. *)
-From HL Require Import Base Model Shape Algo Api OpsLemmas Lemmas ShapeLemmas ApiLemmas QuietLemmas Check Monitors Pf_Calls.
+From HL Require Import Base Model Shape Algo Api OpsLemmas Lemmas ShapeLemmas ApiLemmas QuietLemmas Check Monitors Pf_Calls Pf_Hist Pf_Hist10.
 
 (* executions without panics never poison: ANY API call (other than clear_poison) that returns normally, in
    ANY world, leaves every Poisonable flag as it was *)
@@ -54,7 +54,7 @@ Proof.
   intros t m am s Ha ND fuel w Q Hf Can.
   pose proof (raw_lock_all_or_wait t m am s Ha ND fuel w Q Hf) as L. rewrite Can in L.
   destruct L as [w' [R E]]. exists w'. split; [exact R|].
-  rewrite (held_all_ext t m _ _ (acq_all t m (kleaves s) (w_raw w))).
+  rewrite (Lemmas.held_all_ext t m _ _ (acq_all t m (kleaves s) (w_raw w))).
   - apply held_after_acq. now rewrite <- leaves_kleaves.
   - intros x _. apply (eff_raw _ _ _ E).
 Qed.
@@ -79,7 +79,36 @@ Example C10_guard_path_ok :
   map co_ret (model_obs ex10g) = [RB true; ROk; RPanicked; RB true; ROk; RB false].
 Proof. vm_compute. auto. Qed.
 
+(* ---------------------------------------------------------------- every history (relaxed monitor) *)
+(* For EVERY fault-free history (any number of threads, any collections, panics with live guards, panicking closures,
+   clear_poison, is_poisoned) the relaxed monitor holds of the model: is_poisoned, the Ok / Err of lock / try_lock / read /
+   try_read, and the Ok / Err seen at every wrapper position of every guard and closure argument agree with the history:
+   a wrapper is poisoned after a panic unwound an exclusive hold on it through a guard (its own or a collection's) or
+   through its own scoped call, never without a panic, clean again after clear_poison; a panic in user code never makes
+   an acquisition refuse or panic.  "Relaxed" = after a panic that unwound a scoped call of a COLLECTION CONTAINING the
+   wrapper the monitor accepts either answer: the statement demands poisoning there and the code does not poison (known
+   finding F3, refuted above for the strict monitor). *)
+Theorem C10_every_history_relaxed :
+  forall sc, wf_histb sc = true -> mon_C10 false sc (model_obs sc) = true.
+Proof. exact C10_all_histories_relaxed_dec. Qed.
+Check C10_every_history_relaxed : forall sc, wf_histb sc = true -> mon_C10 false sc (model_obs sc) = true.
+
+Definition ex10h : scen :=
+  mks 3 2 [0; 1; 2] []
+      [SPoison 0 (SLeaf KMutex 0); SPoison 1 (SLeaf KRw 1); SBoxed (SSeq [SPoison 0 (SLeaf KMutex 0); SLeaf KMutex 2]);
+       SRetry (SSeq [SPoison 1 (SLeaf KRw 1); SLeaf KMutex 2])]
+      [] [] [] 4
+      [(0, AKeyGet); (0, AAcquire 2 Ex FGuard); (0, APanic); (1, AKeyGet); (1, AAcquire 0 Ex FTry); (1, AGuardDrop);
+       (1, AKeyGet); (1, AAcquire 1 Sh (FScoped true [CRead 0; CPanic])); (1, AIsPoisoned 1); (1, AAcquire 1 Ex (FScoped true [CPanic]));
+       (1, AIsPoisoned 1); (1, AClearPoison 0); (1, AIsPoisoned 0); (1, AAcquire 3 Ex FGuard)].
+Example C10_every_history_nonvacuous :
+  wf_histb ex10h = true /\ mon_C10 false ex10h (model_obs ex10h) = true /\ mon_C10 true ex10h (model_obs ex10h) = true /\
+  map co_ret (model_obs ex10h) =
+    [RB true; ROk; RPanicked; RB true; RPoisoned; ROk; RB true; RPanicked; RB true; RPanicked; RB true; ROk; RB false; ROk].
+Proof. vm_compute. repeat split. Qed.
+
 Print Assumptions C10_no_panic_no_poison.
 Print Assumptions C10_guard_panic_poisons.
 Print Assumptions C10_own_scoped_panic_poisons.
 Print Assumptions C10_refuted_scoped_collection.
+Print Assumptions C10_every_history_relaxed.
